@@ -202,3 +202,29 @@ func deepCopy(v any) any {
 	}
 	return v
 }
+
+// jsonSafe makes a value marshalable for notes/replays (non-finite floats and foreign types become strings).
+func jsonSafe(v any) any {
+	switch t := v.(type) {
+	case nil, bool, string:
+		return v
+	case float64:
+		if math.IsNaN(t) || math.IsInf(t, 0) {
+			return fmt.Sprintf("<<%v>>", t)
+		}
+		return t
+	case []any:
+		out := make([]any, len(t))
+		for i, x := range t {
+			out[i] = jsonSafe(x)
+		}
+		return out
+	case map[string]any:
+		out := make(map[string]any, len(t))
+		for k, x := range t {
+			out[k] = jsonSafe(x)
+		}
+		return out
+	}
+	return fmt.Sprintf("<<%T:%v>>", v, v)
+}
